@@ -9,6 +9,7 @@ import (
 	"encoding/json"
 	"fmt"
 	"math/big"
+	"strings"
 
 	"verif/engine/core"
 	"verif/gen/keys"
@@ -238,6 +239,37 @@ func Run(r *core.Run) {
 			}
 		}
 	}
+	// coordinates written as the field element plus the field prime, where that still fits the curve's width (always on P-521, for
+	// small coordinates on the other curves): another spelling of the same residue is not a coordinate of the curve - one key
+	// must not have two JWK forms, hence two commitments
+	for _, t := range types {
+		if t == "Ed25519" {
+			continue
+		}
+		w, p := keys.Width(t), keys.Curve(t).Params().P
+		var pts []*keys.Key
+		for xv := int64(0); xv < 8; xv++ {
+			if k := keys.PublicWithX(t, xv); k != nil {
+				pts = append(pts, k)
+			}
+		}
+		pts = append(pts, keys.New(t, 0), keys.New(t, 1))
+		for _, k := range pts {
+			for _, d := range [][2]int64{{0, 0}, {1, 0}, {0, 1}, {1, 1}} {
+				nx := new(big.Int).Add(k.EC.X, new(big.Int).Mul(big.NewInt(d[0]), p))
+				ny := new(big.Int).Add(k.EC.Y, new(big.Int).Mul(big.NewInt(d[1]), p))
+				if nx.BitLen() > 8*w || ny.BitLen() > 8*w {
+					continue
+				}
+				m := k.JWKMap()
+				m["x"], m["y"] = enc.EncodeToString(nx.FillBytes(make([]byte, w))), enc.EncodeToString(ny.FillBytes(make([]byte, w)))
+				muts = append(muts, mj{fmt.Sprintf("reject/%s/%d/plus-field-prime-%d%d", t, k.Index, d[0], d[1]), m, nil})
+				if d[0]+d[1] > 0 {
+					r.Class("coordinate-plus-field-prime-" + t)
+				}
+			}
+		}
+	}
 	r.Extra["mutated_jwks"] = len(muts)
 	core.Parallel(len(muts), func(i int) {
 		m := muts[i]
@@ -283,6 +315,36 @@ func Run(r *core.Run) {
 			r.Class("mutated-invalid")
 		}
 	})
+	// a JWK value handed to the reading and verifying functions is the caller's: it comes back as it went in (with its nonce), so
+	// that a commitment or reveal value computed from it afterwards is the one computed before
+	for _, t := range types {
+		for ni, nonce := range []string{"", "AQIDBAUGBwgJCgsMDQ4PEA"} {
+			t, nonce := t, nonce
+			k := keys.New(t, 5).WithNonce(nonce)
+			id := fmt.Sprintf("jwk-value-unchanged-by-reading/%s/nonce%d", t, ni)
+			r.Case(id, func() *core.Fail {
+				j := k.JWK()
+				before, _ := json.Marshal(j)
+				c0, _ := commitment.GetCommitment(j, 18)
+				msg := []byte("header.payload")
+				compact := k.SignCompact(k.Header(), []byte(`{"p":1}`))
+				sig, _ := enc.DecodeString(strings.Split(compact, ".")[2])
+				_ = jwsutil.VerifySignature(j, sig, msg)
+				_, _ = jwsutil.VerifyJWS(compact, j)
+				_, _ = jwsutil.GetED25519PublicKey(j)
+				_ = j.Validate()
+				_, _ = commitment.GetRevealValue(j, 19)
+				after, _ := json.Marshal(j)
+				c1, _ := commitment.GetCommitment(j, 18)
+				if string(before) != string(after) || c0 != c1 || c0 != ops.Commitment(k, 18) {
+					return &core.Fail{Key: "jwk-value-changed-by-reading/" + t, What: fmt.Sprintf("a JWK value was changed by reading / verifying with it: %s became %s (commitment %s -> %s)", before, after, c0, c1), Detail: map[string]any{"before": string(before), "after": string(after)}}
+				}
+				return nil
+			})
+			r.Observe(id)
+			r.Class("jwk-value-unchanged")
+		}
+	}
 	// one JWK value used for several decodes (a variable declared outside a loop over keys): after every decode the value must be
 	// the key just read, whatever was read into it before - all ordered pairs and triples of key types
 	{
